@@ -131,7 +131,7 @@ def run_c13(ctx: Ctx):
                                      "marker part: C13m theorems over Model/Marker.v's marker_eqb (== an equivalence; ==-equal operands give results with the same meaning); hash agreement of markers: C13h theorems over Model/MarkerHash.v (CPython 3.12's tuple hash, collections.abc.Set._hash and the dataclass hash of every marker class written out over Z; the string hash is a parameter), tied by the stream S-mhash (model hash under the observed string hashes = hash(m) in the running interpreter); side condition nodup_vals (an OrderedSet holds no value twice) checked on every case; objects differing only in attached caches: direct oracle only"] + MARKER_PROOF_TRUST
     props_spec.proof_step(ctx, "Props/C13.v", ["C13_refl", "C13_sym", "C13_trans", "C13_total", "C13_hash", "C13_congr"], extra_targets=["Model/Corr.v"])
     props_spec.proof_step(ctx, "Props/C13m.v", ["C13m_refl", "C13m_sym", "C13m_trans", "C13m_same_meaning", "C13m_interchangeable", "C13m_interchangeable_l"], extra_targets=["Model/CorrMarker.v"])
-    props_spec.proof_step(ctx, "Props/C13h.v", ["C13h_hash", "C13h_set_order", "C13h_runs", "C13h_dup_refuted"], extra_targets=["Model/MarkerHash.v"])
+    props_spec.proof_step(ctx, "Props/C13h.v", ["C13h_hash", "C13h_set_order", "C13h_runs", "C13h_dup_refuted", "C13h_reach_nodup", "C13h_hash_reachable"], extra_targets=["Model/MarkerHash.v"])
     pairs = props_spec.run_c13_spec(ctx)
     if not any(b["kind"] == "translation" for b in ctx.broken):
         from dep_logic.specifiers import AnySpecifier, RangeSpecifier
